@@ -36,7 +36,7 @@ add("C09", True, "E1-enumerator", "exhaustive enumeration of pose alphabets (pai
 add("C10", True, "E1-enumerator", "exhaustive enumeration 12 methods x 4 pose types x operand alphabets; oracle = documented shape + 5-point derivative along every tangent direction through the implementation's boxplus",
     "Every public pose Jacobian method is evaluated on every operand pair of the alphabets; shape, tangent derivative and compact-row consistency are checked.",
     "radial (off-sphere) derivative of 7-column SE(3) Jacobians deliberately not judged", "DESIGN.md 4 C10")
-add("C11", False, "E2-explorer", "explicit-state exploration of all operation words up to depth 4/5 over a 22-operation alphabet + periodic chains to 1e4 operations; dense angle alphabet for the wrap; optimizer histories",
+add("C11", True, "E2-explorer", "explicit-state exploration of all operation words up to depth 4/5 over a 22-operation alphabet + periodic chains to 1e4 operations; dense angle alphabet for the wrap; optimizer histories",
     "Invariants (angle range and congruence; unit norm up to k*eps) are evaluated on every node of the full operation tree and every step of the periodic chains.",
     "exhaustive in the generating word, not over all 1e4-long words", "DESIGN.md 4 C11")
 add("C12", True, "E3-tlc-conformance + E2", "TLC explicit-state model of the stopping rule with every behaviour replayed against Graph.optimize through a scripted edge; exhaustive call-splitting (all compositions of n<=6) and direct enumeration over graphs x tol x max_iter x verbose",
